@@ -245,3 +245,17 @@ func ProvablyNonNil(v ssa.Value) bool {
 	}
 	return false
 }
+
+// ReturnsConstNilError matches a Return whose error result is the constant nil (a definite success return).
+func ReturnsConstNilError(in ssa.Instruction) bool {
+	r, ok := in.(*ssa.Return)
+	if !ok || len(r.Results) == 0 {
+		return false
+	}
+	last := ReturnValues(r)[len(r.Results)-1]
+	if !isErrorType(last.Type()) {
+		return false
+	}
+	c, ok := last.(*ssa.Const)
+	return ok && c.IsNil()
+}
